@@ -32,7 +32,7 @@ UNARY_SELECTORS = ['selecttrue', 'selectfalse', 'selectnone', 'selectnotnone']
 OTHER = ['select-callable', 'select-expr', 'select-field', 'select-multifield', 'biselect', 'facet', 'rowlenselect', 'search', 'search-field',
          'searchcomplement', 'selectusingcontext', 'rowslice', 'head', 'tail', 'skip']
 REQUIRED = (['sel:' + s for s in ORDER_SELECTORS + RANGE_SELECTORS + VALUE_SELECTORS + UNARY_SELECTORS + OTHER] +
-            ['ragged-row-read-as-missing', 'complement', 'reference-value-none', 'reference-value-foreign-type', 'recording-predicate-rows', 'rows-are-Record-objects', 'field-given-as-a-one-element-sequence', 'selector-called-as-a-table-method', 'selector-called-by-its-short-alias'])
+            ['ragged-row-read-as-missing', 'cells-of-a-str-or-date-subclass', 'complement', 'reference-value-none', 'reference-value-foreign-type', 'recording-predicate-rows', 'rows-are-Record-objects', 'field-given-as-a-one-element-sequence', 'selector-called-as-a-table-method', 'selector-called-by-its-short-alias'])
 
 TYPES = {'int': int, 'str': str, 'float': float, 'bool': bool, 'NoneType': type(None), 'tuple': tuple, 'bytes': bytes}
 PREDS = {
@@ -302,6 +302,11 @@ def judge(case, ctx):
         stale = ['zz%d' % i for i in range(len(hdr))][::-1]
         table = [hdr] + [Record(r, stale, missing='STALE') for r in rows]
         ctx.seen('rows-are-Record-objects')
+    if sel in ORDER_SELECTORS + RANGE_SELECTORS + VALUE_SELECTORS and case.get('rows_as') != 'records' and int(util.fp(case)[2:4], 16) % 6 == 0:
+        # some text / date cells are instances of a subclass of str / date: equal to, and ordered like, the plain values
+        table = util.with_subtypes(table)
+        rows = [tuple(r) for r in table[1:]]
+        ctx.seen('cells-of-a-str-or-date-subclass')
     field, args, comp, missing = case['field'], case['args'], case['complement'], case['missing']
     out = []
     kw = {}
@@ -350,7 +355,7 @@ def judge(case, ctx):
         if d:
             out.append(d)
         # partition with the complement
-        got_c = util.attempt_rows(lambda: fn(copy.deepcopy(case['table']), field, *_petl_args(sel, args), complement=not comp))
+        got_c = util.attempt_rows(lambda: fn(copy.deepcopy(table), field, *_petl_args(sel, args), complement=not comp))
         if not isinstance(got, util.Raised) and not isinstance(got_c, util.Raised):
             if _ms(got[1:]) + _ms(got_c[1:]) != _ms(rows):
                 out.append({'kind': 'selection+complement-not-a-partition', 'fn': sel, 'selection': got[1:], 'complement': got_c[1:]})
